@@ -10,7 +10,10 @@ RULE = ("filter programs drawn from a grammar over the registered methods (neste
         "let-bound constants of every literal type, all six log methods, early accept/reject) over small shared pools "
         "of AS numbers, communities, attribute codes and prefixes, so predicates hit often; each program is compiled "
         "by roto from its printed source and run on 6-12 generated routes / UPDATEs / BMP messages (c10), on UPDATE "
-        "streams through the real RIB unit (c10rib), on scripted BGP sessions through the real Processor::process (c10bgp) and on BMP sessions through the real router handler (c10bmp); a "
+        "streams through the real RIB unit (c10rib; routes with a Fresh and with an Mrt context), on scripted BGP sessions through the real Processor::process and on real "
+        "BGP sessions over loopback TCP with peers of several ASes (c10bgp) and on BMP sessions with all seven RFC 7854 message types through the real router handler "
+        "(c10bmp, with the handler's received / processed / invalid counters); nearly half of the bmp-in / bgp-in programs start with a clause on prov.peer_asn() "
+        "so that verdict and output depend on the provenance the call site hands over; a "
         "case is non-trivial when its inputs get both verdicts or at least one output entry; distinct = distinct case text")
 TRUSTED_BASE = [
     "Coq 8.16.1 kernel (coqc; coqchk in thorough); no native_compute",
@@ -18,7 +21,10 @@ TRUSTED_BASE = [
     "Rust harness engines c10/c10rib/c10bgp/c10bmp: print Roto source from the program text, compile it with roto 0.4.0 against "
     "create_runtime() through a file as the manager does (facade rotonda::verif::filter), build UPDATE / BMP bytes, call the "
     "typed functions as the units do, drive the real RibUnitRunner::process_update (filter installed with the guarded setter) "
-    "the real bgp Processor::process session loop and the real bmp RouterHandler::process_msg, capture the gate output with a direct-update link",
+    "the real bgp Processor::process session loop and the real bmp RouterHandler::process_msg, capture the gate output with a direct-update link; "
+    "c10bmp builds Route Mirroring octets itself (common header type 6, the per-peer header octets of the test encoder, one TLV) and reads the handler's "
+    "counters from the Prometheus text of its metrics (harness reader promtext); c10bgp plays a BGP peer over loopback TCP (OPEN with or without the "
+    "4-octet capability, KEEPALIVE, UPDATEs, FIN) against the real handle_connection (hook verif_connection_filtered::start_filtered)",
     "modelled, not verified: src/roto_runtime/{runtime,types}.rs, the call sites in rib_unit/unit.rs, "
     "bmp_tcp_in/router_handler.rs, bgp_tcp_in/router_handler.rs; roto's compiler and routecore's parsers are exercised, not modelled",
 ]
@@ -29,6 +35,10 @@ ASSUMPTIONS = [
     "the bgp-in call site is driven through a scripted session (guarded hook): established session with routecore's NegotiatedConfig::dummy(), "
     "the UPDATEs of the case, then connection lost; the BGP FSM and the TCP side are not exercised",
     "contains_large_community cannot be reached from a script: create_runtime registers no way to make a LargeCommunity value",
+    "real BGP sessions (c10bgp, op A): one session per case, the peer configured by address with any AS, no timers fire within a case; the session ends "
+    "with the peer's FIN, which routecore queues behind the UPDATEs it has handed over (the loop handles them in order)",
+    "Route Mirroring is to the session state machine what a Statistics Report is (ignored while dumping / updating, invalid before Initiation and after "
+    "Termination); its TLVs are not looked at by anything in rotonda",
 ]
 
 ASNS = [65001, 65002, 65003, 64512, 174, 4200000001, 12345]
@@ -144,6 +154,23 @@ def gen_prog(rng, kind, peerdown):
     return " ".join(gen_block(rng, kind, [], 3, "ret", rng.range(1, 5), peerdown))
 
 
+def prov_clause(rng, asns):
+    """A leading statement whose effect depends on prov.peer_asn() only: an else-less `if` (never 'diverging' for
+    roto 0.4.0) on the peer AS - or on its negation - that logs and/or returns. With it in front, verdict AND output
+    of the filter depend on the provenance the call site hands over, whatever the message is."""
+    a = "#%d" % rng.choice(asns)
+    cond = ["pasn", a] if rng.chance(75) else ["not", "pasn", a]
+    outs = []
+    for _ in range(rng.below(3)):
+        outs += ["out"] + rng.choice([["asn", a], ["custom", "#%d" % rng.choice(TYPES["u32"]), "#%d" % rng.choice(TYPES["u32"])],
+                                      ["origin", a]])
+    k = rng.weighted([("ret", 70), ("log", 30)])
+    if k == "log" and not outs:
+        outs = ["out", "asn", a]
+    tail = ["ret", rng.choice(["R", "R", "A"])] if k == "ret" else ["end"]
+    return " ".join(["if"] + cond + outs + tail + ["end"])
+
+
 def gen_attrs(rng, legacy=False):
     if rng.chance(12):
         path = "-"
@@ -166,7 +193,7 @@ def gen_input(rng, kind):
         return "R %d %s" % (rng.choice(PFXS), gen_attrs(rng))
     if kind == "bgp":
         return "G %d %s %d %d" % (rng.choice(ASNS), gen_attrs(rng), rng.below(4), rng.below(3))
-    k = rng.weighted([("rm", 60), ("pd", 10), ("pu", 8), ("stats", 8), ("init", 7), ("term", 7)])
+    k = rng.weighted([("rm", 52), ("pd", 10), ("pu", 8), ("stats", 9), ("mirror", 9), ("init", 6), ("term", 6)])
     if k == "rm":
         legacy = rng.chance(25)
         return "M rm %d %d %s %d %d" % (rng.choice(ASNS16 if legacy else ASNS), 1 if legacy else 0, gen_attrs(rng, legacy),
@@ -180,6 +207,8 @@ def gen_c10(rng, tier):
     for i in range(n):
         kind = ["rib", "bgp", "bmp"][i % 3]
         prog = gen_prog(rng, kind, peerdown=8)
+        if kind != "rib" and rng.chance(30):
+            prog = prov_clause(rng, ASNS + [0]) + " " + prog
         ins = [gen_input(rng, kind) for _ in range(rng.range(6, 12))]
         yield ";".join(["F %s %s" % (kind, prog)] + ins)
 
@@ -220,6 +249,10 @@ def corpus_c10():
         "G 65001 s65001.65536/4294902426/-/- 1 0;G 65001 s65536.65001/7/-/- 2 1;G 65001 -/-/-/- 0 2",
         "F bmp let asn 12345 let asn 65536 let com 4294902426 if pd out peerdown end end if ibgp $0 ret R if asc $1 out asn $1 end end if com $2 out comm $2 end end ret A end;"
         "M pd 65001 0 -/-/-/- 0 0;M rm 12345 0 s65536/-/-/- 1 0;M rm 65001 0 s65001.65536/4294902426/-/- 1 0;M init 0 0 -/-/-/- 0 0;M rm 65001 0 s65001/-/-/- 0 2",
+        # peer_asn / is_ibgp on every message type, Route Mirroring included
+        "F bmp if pasn #12345 out asn #12345 ret R end if ibgp #65001 out custom #1 #1 end end ret A;M stats 12345 0 -/-/-/- 0 0;"
+        "M mirror 12345 0 -/-/-/- 0 0;M mirror 65001 0 -/-/-/- 0 0;M pd 12345 0 -/-/-/- 0 0;M pu 12345 0 -/-/-/- 0 0;M init 0 0 -/-/-/- 0 0;"
+        "M term 0 0 -/-/-/- 0 0;M rm 12345 0 s65001/-/-/- 1 0;M stats 65001 0 -/-/-/- 0 0",
         # the refuted lemma: AS-path predicate of a bmp-in filter on a 2-octet peer's message
         "F bmp if asc #65001 ret R end ret A;M rm 65002 1 s65001.65002/-/-/- 1 0;M rm 65002 0 s65001.65002/-/-/- 1 0",
         # AS_SET as origin, empty path, attribute codes
@@ -241,6 +274,10 @@ def gen_c10rib(rng, tier):
             ops.append("U %d %d %s %s %s" % (rng.range(1, 3), tag, gen_attrs(rng), ",".join(map(str, ann)) or "-",
                                              ",".join(map(str, wd)) or "-"))
             tag += 1
+            if rng.chance(18):
+                # a route of an MRT table dump (mrt-file-in): Update::Single, provenance in an MrtContext
+                ops.append("M %d %d %s %d" % (rng.range(1, 3), tag, gen_attrs(rng), rng.choice(pool)))
+                tag += 1
             if rng.chance(50):
                 ops.append("Q %d" % rng.choice(pool))
         for p in sorted(set(pool)):
@@ -270,6 +307,8 @@ def classify_rib(case, out):
         ks.append("has-output")
     if any("W" in t for t in toks if t.startswith("q:")):
         ks.append("withdrawn-in-rib")
+    if any(o.startswith("M ") for o in case.split(";")):
+        ks.append("mrt-context-route")
     return ks
 
 
@@ -283,6 +322,9 @@ def corpus_c10rib():
         "U 1 5 s65002/-/-/- %d,%d -;U 1 6 s65001/-/-/- %d -;U 2 7 s65003/7/-/- - %d;Q %d;Q %d;U 1 8 -/-/-/- - %d,%d;Q %d;Q %d"
         % (P, P, P, P2, P, P, P, P2, P, P2, P, P2),
         "F rib none;U 1 5 s65002/-/-/- %d,%d -;Q %d" % (P, P2, P),
+        # routes of an MRT table dump (RouteContext::Mrt): filtered, logged with their own ingress id, stored
+        "F rib if asc #65001 out asn #65001 ret R end out custom #1 #2 ret A;M 1 5 s65002/-/-/- %d;M 2 6 s65001/-/-/- %d;M 2 7 s65003/-/-/- %d;"
+        "U 1 8 s65003/-/-/- %d -;Q %d" % (P, P, P, P, P),
         "F rib if att #35 ret A ret R end;U 1 1 s65001/-/-/35 %d -;U 1 2 s65001/-/-/- %d -;U 1 3 s65001/-/-/35 - %d;Q %d;Q %d" % (P, P2, P, P, P2),
     ]
 
@@ -294,12 +336,16 @@ def gen_c10bmp(rng, tier):
         if prog != "none" and rng.chance(65):
             # session messages pass, so that the session gets far enough for the filter to matter on routes
             prog = "if not or rm pd ret A end " + prog
+        if prog != "none" and rng.chance(45):
+            # verdict and output depend on the provenance: the peer AS of one of the three peers, AS0 (what a
+            # message without per-peer header carries), or an AS nobody has
+            prog = prov_clause(rng, [65001, 65001, 65002, 174, 174, 0, 12345]) + " " + prog
         ops = ["F bmp %s" % prog, "I"] if rng.chance(92) else ["F bmp %s" % prog]
         tag = 1
         pool = [rng.choice(PFXS) for _ in range(3)]
         up = set()
         for _ in range(rng.range(4, 12)):
-            k = rng.weighted([("U", 22), ("R", 45), ("D", 10), ("S", 8), ("I", 4), ("T", 4)])
+            k = rng.weighted([("U", 20), ("R", 40), ("D", 10), ("S", 10), ("X", 10), ("I", 4), ("T", 4)])
             if k in ("I", "T"):
                 ops.append(k)
                 continue
@@ -343,6 +389,18 @@ def classify_bmp(case, out):
         ks.append("reached-updating")
     if any(o.startswith("R 1 ") for o in case.split(";")):
         ks.append("legacy-peer-route")
+    if any(o.startswith("S ") for o in case.split(";")):
+        ks.append("statistics-report")
+    if any(o.startswith("X ") for o in case.split(";")):
+        ks.append("route-mirroring")
+    if " pasn " in case.split(";")[0]:
+        ks.append("reads-provenance")
+        # a per-peer message the state machine ignores whose output shows what the filter made of the provenance
+        ops = case.split(";")[1:]
+        for k, o in enumerate(ops):
+            if o[:2] in ("S ", "X ") and 4 * k < len(toks) and toks[4 * k] != "out:[]":
+                ks.append("provenance-output-on-stats-or-mirror")
+                break
     return ks
 
 
@@ -359,6 +417,13 @@ def corpus_c10bmp():
         "F bmp if rm ret A end ret R;I;U 0;R 0 5 s65001.65003/-/-/- %d -" % P,
         # log_peer_down on a message that is not a Peer Down Notification
         "F bmp out peerdown ret A;I;U 0;D 0",
+        # "reject and log everything about AS65001": every message type about the peer, Statistics Report and Route
+        # Mirroring included, is logged and kept from the state machine (processed counter); other peers' pass
+        "F bmp let asn 65001 if pasn $0 out asn $0 ret R ret A end;I;U 0;U 2;R 0 5 s65001.65003/-/-/- %d -;S 0;X 0;S 2;X 2;D 0;D 2;T" % P,
+        # messages without a per-peer header carry the connection's provenance: AS0
+        "F bmp if pasn #0 out custom #1 #2 end end if pasn #174 out custom #5 #9 ret R end ret A;I;S 2;X 2;S 0;X 1;T",
+        # Statistics Report / Route Mirroring before Initiation: invalid for the state machine if the filter lets them through
+        "F bmp if pasn #65002 ret R end ret A;S 1;X 1;S 0;X 0;I;X 0",
     ]
 
 
@@ -366,12 +431,23 @@ def gen_c10bgp(rng, tier):
     n = 800 if tier == "quick" else 16000
     for _ in range(n):
         prog = "none" if rng.chance(8) else gen_prog(rng, "bgp", peerdown=6)
-        ops = ["F bgp %s" % prog]
+        # one case in four is a REAL session (loopback TCP, routecore's FSM): a peer of some AS - 2-octet with or
+        # without the 4-octet capability, 4-octet, the unit's own AS (iBGP) - so that the provenance comes from what
+        # the session negotiated; the others use the scripted session (NegotiatedConfig::dummy(), AS12345)
+        real = rng.chance(25)
+        peer = rng.choice([65001, 174, 65000, 4200000001, 4200000001, 12345, 64512, 23456]) if real else 12345
+        four = 1 if peer >= 65536 or rng.chance(60) else 0
+        if prog != "none" and rng.chance(60 if real else 45):
+            # verdict and output depend on the session's provenance: the peer's AS, the unit's own AS (65000), AS0,
+            # AS_TRANS, an AS of the pools
+            prog = prov_clause(rng, [peer, peer, peer, 65000, 0, 23456, 65001, 174]) + " " + prog
+        ops = ["F bgp %s" % prog] + (["A %d %d" % (peer, four)] if real else [])
         pool = [rng.choice(PFXS) for _ in range(3)]
         for tag in range(1, rng.range(2, 7)):
             ann = sorted({rng.choice(pool) for _ in range(rng.below(4))})
             wd = sorted({rng.choice(pool) for _ in range(rng.below(3))} - set(ann)) if rng.chance(40) else []
-            ops.append("G %d %s %s %s" % (tag, gen_attrs(rng), ",".join(map(str, ann)) or "-", ",".join(map(str, wd)) or "-"))
+            ops.append("G %d %s %s %s" % (tag, gen_attrs(rng, legacy=(real and not four)), ",".join(map(str, ann)) or "-",
+                                          ",".join(map(str, wd)) or "-"))
         yield ";".join(ops)
 
 
@@ -382,12 +458,23 @@ def nontrivial_bgp(case, out):
 def classify_bgp(case, out):
     ks = ["no-filter" if case.startswith("F bgp none") else "filter"]
     nu, ng = out.count("U["), case.count(";G ")
+    if ";A " in case:
+        ks.append("real-session")
+        ks.append("real-session:" + ("as4-peer" if int(case.split(";")[1].split()[1]) >= 65536 else
+                                     "as2-peer-with-capability" if case.split(";")[1].split()[2] == "1" else "as2-peer"))
     ks.append("all-accepted" if nu == ng else "all-rejected" if nu == 0 else "some-rejected")
     if "O[" in out:
         ks.append("has-output")
     if "O[]" in out:
         ks.append("empty-output-stream-update")
-    return ks
+    if " pasn " in case.split(";")[0]:
+        ks.append("reads-provenance")
+    for o in case.split(";")[1:]:
+        f = o.split()
+        if f[0] == "G":
+            ks.append("update:" + ("empty" if f[3] == "-" and f[4] == "-" else "withdraw-only" if f[3] == "-" else
+                                   "announce-only" if f[4] == "-" else "both"))
+    return sorted(set(ks))
 
 
 def corpus_c10bgp():
@@ -396,6 +483,18 @@ def corpus_c10bgp():
         "F bgp if pasn #12345 out custom #1 #1 end end if asc #65001 out asn #65001 out peerdown ret R end ret A;"
         "G 5 s65001.65003/-/-/- %d -;G 6 s65003/-/-/- %d,%d -;G 7 -/-/-/- - %d" % (P, P2, P, P),
         "F bgp none;G 5 s65001.65003/-/-/- %d -" % P,
+        # "reject and log everything from AS12345" / from the unit's own AS: every kind of UPDATE of the session
+        # (announcements, withdrawals only, both, none) gets the verdict of the session's peer AS
+        "F bgp if pasn #65000 out custom #9 #9 ret R end let asn 12345 if pasn $0 out asn $0 ret R ret A end;"
+        "G 5 s65001.65003/-/-/- %d -;G 6 -/-/-/- - %d;G 7 s65003/-/-/- %d %d;G 8 -/-/-/- - -" % (P, P, P2, P),
+        # real sessions: a 4-octet AS peer (My AS = AS_TRANS, the AS in the capability), a 2-octet peer without the
+        # capability (AS_PATH with 2-octet AS numbers), a peer of the unit's own AS
+        "F bgp if pasn #23456 out custom #2 #3 end end let asn 4200000001 if pasn $0 out asn $0 ret R ret A end;A 4200000001 1;"
+        "G 5 s4200000001.65003/-/-/- %d -;G 6 -/-/-/- - %d;G 8 -/-/-/- - -" % (P, P),
+        "F bgp if asc #65003 out asn #65003 end end if pasn #174 out custom #1 #1 ret A end ret R;A 174 0;G 5 s174.65003/-/-/- %d -;G 6 s174/7/-/- %d %d" % (P, P2, P),
+        "F bgp if pasn #65000 out custom #9 #9 ret R end ret A;A 65000 1;G 5 s65001.65003/-/-/- %d -" % P,
+        "F bgp none;A 65001 1;G 5 s65001.65003/-/-/- %d -;G 6 -/-/-/- - %d" % (P, P),
+        "F bgp if not pasn #12345 out custom #1 #1 ret R end ret A;G 5 s65001.65003/-/-/- %d -;G 6 -/-/-/- - %d;G 8 -/-/-/- - -" % (P, P),
         "F bgp let asn 65536 let com 4294902426 if aso $0 out origin $0 end end if com $1 out comm $1 end end ret A;"
         "G 1 s65001.65536/4294902426/-/- %d -;G 2 s65536.65001/7/-/- %d %d" % (P, P2, P),
     ]
